@@ -23,6 +23,7 @@ type env struct {
 	pkg         *types.Package
 	depth       int
 	noDef       bool // inside a define-fun-rec body: no side definitions
+	inOld       bool
 }
 
 type specError string
@@ -236,6 +237,7 @@ func (en *env) eval(x Expr) tval {
 	case *EOld:
 		c := *en
 		c.st = en.old
+		c.inOld = true
 		return c.eval(v.X)
 	case *ELet:
 		val := en.coerceInt(en.eval(v.Val))
@@ -280,6 +282,15 @@ func isUntypedNil(t types.Type) bool {
 }
 
 func (en *env) ident(name string) tval {
+	// inside a loop invariant a name means the current value of the source variable;
+	// old(name) means the value on function entry
+	if en.loop != nil && !en.inOld && en.fn != nil && en.fn == en.e.fn {
+		if _, isParam := en.e.params[name]; isParam {
+			if v, ok := en.e.resolveLoopPhi(name, en.loop); ok {
+				return v
+			}
+		}
+	}
 	if v, ok := en.names[name]; ok {
 		return v
 	}
@@ -602,7 +613,17 @@ func (en *env) findPackage(name string) *types.Package {
 			}
 		}
 	}
-	return nil
+	// spec files have no package of their own: search every loaded package by name
+	var best *types.Package
+	for _, k := range sortedKeys(en.e.V.P.byPath) {
+		p := en.e.V.P.byPath[k]
+		if p.Types != nil && p.Types.Name() == name {
+			if best == nil || len(p.PkgPath) < len(best.Path()) {
+				best = p.Types
+			}
+		}
+	}
+	return best
 }
 
 // fieldAccess returns either the address of the field (through a pointer) or its value.
@@ -784,6 +805,7 @@ func (en *env) quant(v *EQuant) tval {
 		n := fmt.Sprintf("q_%s_%d", sanitize(p.Name), en.e.ctr)
 		binders = append(binders, fmt.Sprintf("(%s %s)", n, s.name))
 		cur = cur.with(p.Name, tval{term: n, typ: t})
+		cur.noDef = true
 		if s.kind == skSlice {
 			ranges = append(ranges, app("slice_wf", n))
 		}
@@ -840,6 +862,12 @@ func (en *env) callExpr(v *ECall) tval {
 			}
 		}
 		en.fail("%s of %s", v.Fun, x.typ)
+	case "soff":
+		x := en.eval(v.Args[0])
+		return tval{term: app("s_off", x.term), typ: types.Typ[types.Int]}
+	case "sbase":
+		x := en.eval(v.Args[0])
+		return tval{term: app("s_base", x.term), typ: types.Typ[types.UnsafePointer]}
 	case "unchanged":
 		cur := en.eval(v.Args[0])
 		c := *en
@@ -993,6 +1021,19 @@ func (en *env) specCall(sf *SpecFunc, v *ECall) tval {
 	}
 	r := sub.coerceTo(sub.eval(sf.Body), rt)
 	r.typ = rt
+	// name large non-boolean expansions by an opaque constant (a definition, not an
+	// assumption): keeps arithmetic over spec values small for the solvers
+	if !en.noDef && len(r.term) > 200 && en.e.sortOf(rt).kind == skBV {
+		key := r.term
+		if c, ok := en.e.specConsts[key]; ok {
+			r.term = c
+		} else {
+			c := en.e.declare("sv_"+sf.Name, en.e.sortOf(rt))
+			en.e.emit(fmt.Sprintf("(assert (= %s %s))", c, r.term))
+			en.e.specConsts[key] = c
+			r.term = c
+		}
+	}
 	return r
 }
 
@@ -1026,6 +1067,25 @@ func (V *Verifier) declareSpecFunc(en *env, sf *SpecFunc) {
 // ---------------------------------------------------------------------------
 // source-level variable resolution (DESIGN A.3)
 // ---------------------------------------------------------------------------
+
+func (e *fnEnc) resolveLoopPhi(name string, li *loopInfo) (tval, bool) {
+	for _, l := range e.loopList {
+		if l == li || l.blocks[li.head] {
+			for _, ins := range l.head.Instrs {
+				phi, ok := ins.(*ssa.Phi)
+				if !ok {
+					break
+				}
+				if phi.Comment == name {
+					if t, ok := e.vals[phi]; ok {
+						return tval{term: t, typ: phi.Type()}, true
+					}
+				}
+			}
+		}
+	}
+	return tval{}, false
+}
 
 func (e *fnEnc) resolveSourceVar(name string, li *loopInfo, st *state) (tval, bool) {
 	// 1. header phis of the loop (and enclosing loops) whose comment is the name
